@@ -97,18 +97,28 @@ theorem coordinates_rejected (gt : String) (finite : α → Bool) (dbl : Bool) (
     have hn' : (castG cast gd).length ≤ k.toNat - 1 := by omega
     simp [getCoordinates, coordIndex_spec, h1, h0, hr, hf, List.getElem?_eq_none hn, List.getElem?_eq_none hn']
 
-/-- **Call order does not matter.**  On a parsed group (whose cache `_graphic_data` is filled by the first
-decoding) any history of whole-group and per-annotation accesses — per-annotation first, whole first,
-outside numbers in between — gives, access by access, the answer a freshly parsed object gives to that
-single access: the whole stored input, its `k`-th annotation, ValueError for `k < 1`, IndexError for `k > n`. -/
-theorem history_independent (gt : String) (finite : α → Bool) (dbl : Bool) (cast : α → α) (gd : GData α) (c : Nat)
-    (v : Valid gt finite cast gd c) (g : Group α) (hg : construct gt finite dbl cast gd = .ok g) (accs : List Access) :
-    runHistory (parse g) (ctOf c) accs = accs.map (fun a => (accessS (parse g) (ctOf c) a).1) ∧
-    (accessS (parse g) (ctOf c) .whole).1 = .ok (.whole (castG cast gd)) ∧
-    (∀ (k : Nat) (hk : k < gd.length), (accessS (parse g) (ctOf c) (.nth ((k : Int) + 1))).1 =
+/- FULL STATEMENT (not a theorem of the code as it is — open finding C18-wrong-coordinate-type):
+   "Call order does not matter: on a parsed group ANY history of accesses gives, access by access, the answer a freshly
+   parsed object gives to that single access, and an access with the other coordinate type is refused without side effect."
+   A parsed group does not know its coordinate type (it is an attribute of the SOP instance): `get_graphic_data` decodes
+   with whatever type is requested and caches the result under that key, after which the right type is refused
+   (`counterexample_wrong_coordinate_type`).  Proved below: the statement restricted to histories that use the group's
+   own coordinate type. -/
+
+/-- **Call order does not matter — for histories that use the coordinate type the group was built with.**
+On a parsed group (whose cache `_graphic_data` is filled by the first decoding) any such history of
+whole-group and per-annotation accesses — per-annotation first, whole first, outside numbers in between —
+gives, access by access, the answer a freshly parsed object gives to that single access: the whole stored
+input, its `k`-th annotation, ValueError for `k < 1`, IndexError for `k > n`. -/
+theorem history_independent_partial (gt : String) (finite : α → Bool) (dbl : Bool) (cast : α → α) (gd : GData α) (c : Nat)
+    (v : Valid gt finite cast gd c) (g : Group α) (hg : construct gt finite dbl cast gd = .ok g) (accs : List Access)
+    (hown : ∀ a ∈ accs, a.ct = ctOf c) :
+    runHistory (parse g) accs = accs.map (fun a => (accessS (parse g) a).1) ∧
+    (accessS (parse g) (.whole (ctOf c))).1 = .ok (.whole (castG cast gd)) ∧
+    (∀ (k : Nat) (hk : k < gd.length), (accessS (parse g) (.nth ((k : Int) + 1) (ctOf c))).1 =
       .ok (.nth ((castG cast gd)[k]'(by simpa [castG] using hk)))) ∧
-    (∀ k : Int, k < 1 → (accessS (parse g) (ctOf c) (.nth k)).1 = .error .value) ∧
-    (∀ k : Int, (gd.length : Int) < k → (accessS (parse g) (ctOf c) (.nth k)).1 = .error .index) := by
+    (∀ k : Int, k < 1 → (accessS (parse g) (.nth k (ctOf c))).1 = .error .value) ∧
+    (∀ k : Int, (gd.length : Int) < k → (accessS (parse g) (.nth k (ctOf c))).1 = .error .index) := by
   have hdec : decode gt (expectedEnc gt dbl cast gd c) (ctOf c) = .ok (castG cast gd) :=
     decode_expected gt finite dbl cast gd c v
   simp only [construct, encode_valid gt finite dbl cast gd c v] at hg
@@ -119,7 +129,7 @@ theorem history_independent (gt : String) (finite : α → Bool) (dbl : Bool) (c
     simp [getGraphicDataS, hdec]
   have hlen : (castG cast gd).length = gd.length := by simp [castG]
   refine ⟨?_, ?_, ?_, ?_, ?_⟩
-  · exact runHistory_independent gt _ (ctOf c) (castG cast gd) hdec accs _ ⟨rfl, rfl, Or.inl rfl⟩
+  · exact runHistory_independent gt _ (ctOf c) (castG cast gd) hdec accs hown _ ⟨rfl, rfl, Or.inl rfl⟩
   · simp [accessS, hS]
   · intro k hk
     have hci : coordIndex ((k : Int) + 1) = .ok (k : Int) := by
@@ -136,6 +146,20 @@ theorem history_independent (gt : String) (finite : α → Bool) (dbl : Bool) (c
     have h0 : ¬ (k - 1 < 0) := by omega
     have hn : (castG cast gd).length ≤ k.toNat - 1 := by omega
     simp [accessS, coordIndex_spec, h1, h0, hS, List.getElem?_eq_none hn]
+
+/-- three 2-D POINTs `(1,2) (3,4) (5,6)` as stored by the constructor -/
+def exPointsEnc : Enc Int := { coords := [1, 2, 3, 4, 5, 6], double := false, commonZ := none, indexList := none, numAnn := 3 }
+
+/-- **Counterexample (open finding C18-wrong-coordinate-type).**  On the parsed group of three 2-D points, asking
+for '3D' first is NOT refused: it returns two reinterpreted points `(1,2,3) (4,5,6)` and poisons the cache, so the
+following request for the right type '2D' raises ValueError — although a freshly parsed object answers it with
+the three stored points (and the freshly built object refuses '3D', `graphic_data_fresh`). -/
+theorem counterexample_wrong_coordinate_type :
+    runHistory ({ gtype := "POINT", enc := exPointsEnc, cache := none } : Group Int) [.whole 3, .whole 2] =
+      [.ok (.whole [[[1, 2, 3]], [[4, 5, 6]]]), .error .value] ∧
+    runHistory ({ gtype := "POINT", enc := exPointsEnc, cache := none } : Group Int) [.whole 2] =
+      [.ok (.whole [[[1, 2]], [[3, 4]], [[5, 6]]])] := by
+  decide
 
 /-! ## stored attributes (L1) -/
 
@@ -473,18 +497,19 @@ theorem group_lookup_by_number (gs : List GroupInfo) (k : Int) (uid : Option Str
   getGroup_by_number gs k uid
 
 /-- in an object whose groups are numbered 1, 2, … in order (the SOP class constructor refuses anything else)
-number `k` finds the `k`-th group, and any other number is refused -/
+number `k` finds the `k`-th group, and every other number (below 1 or above the number of groups) is refused -/
 theorem group_lookup_numbered (gs : List GroupInfo) (h : numberedFrom 0 gs) (uid : Option String) :
     (∀ (k : Nat) (hk : k < gs.length), getGroup gs (some ((k : Int) + 1)) uid = .ok gs[k]) ∧
-    (∀ j : Int, j < 1 → getGroup gs (some j) uid = .error .value) := by
+    (∀ j : Int, (j < 1 ∨ (gs.length : Int) < j) → getGroup gs (some j) uid = .error .value) := by
   constructor
   · intro k hk
     rw [getGroup_by_number]
     have := filter_number_unique gs 0 k hk h
     simp only [Int.zero_add] at this
     rw [this]
-  · intro j hj
-    rw [getGroup_by_number, filter_number_none gs 0 j h (by omega)]
+  · rintro j (hj | hj)
+    · rw [getGroup_by_number, filter_number_none gs 0 j h (by omega)]
+    · rw [getGroup_by_number, filter_number_above gs 0 j h (by omega)]
 
 /-- lookup by UID -/
 theorem group_lookup_by_uid (gs : List GroupInfo) (u : String) :
